@@ -331,20 +331,29 @@ class TaskManager(rpu.ClientComponent):
 
                 self._log.debug('pilot %s is final', pid)
 
+                # this callback runs on the pilot manager's thread, while task
+                # state updates are handled on the state subscriber thread
+                # (`_update_tasks`): both change the same tasks.  Use the same
+                # lock, so that a task is either updated first (and then is not
+                # failed here if final), or is failed first (and then ignores
+                # the update) - but never both, half way each.
                 tasks = list()
-                for task in self._tasks.values():
+                with self._tasks_lock:
 
-                    # only non-final tasks of this very pilot are affected
-                    if task.pilot != pid or task.state in rps.FINAL:
-                        continue
+                    for task in self._tasks.values():
 
-                    update = {'uid'             : task.uid,
-                              'exception'       : 'RuntimeError("pilot died")',
-                              'exception_detail': 'pilot %s is final' % pid,
-                              'state'           : rps.FAILED}
+                        # only non-final tasks of this very pilot are affected
+                        if task.pilot != pid or task.state in rps.FINAL:
+                            continue
 
-                    task._update(update)
-                    tasks.append(task.as_dict())
+                        update = {'uid'       : task.uid,
+                                  'exception' : 'RuntimeError("pilot died")',
+                                  'exception_detail':
+                                                'pilot %s is final' % pid,
+                                  'state'     : rps.FAILED}
+
+                        task._update(update)
+                        tasks.append(task.as_dict())
 
                 # final tasks are not pushed
                 self.advance(tasks, publish=True, push=False)
